@@ -3,7 +3,8 @@
 From stdpp Require Import gmap.
 From Coq Require Import ZArith.
 From V Require Import Base.Res Sched.LedgerModel Sched.StmtModel Sched.GangModel Sched.CycleModel Sched.LedgerInvP
-                      Sched.NodeCapLemmas Sched.NodeCapLemmasCycle Sched.NodeCapCheck C02.BindModel C02.BindLemmas.
+                      Sched.NodeCapLemmas Sched.NodeCapLemmasCycle Sched.NodeCapCheck Sched.NodeCapLemmasEvict Sched.NodeCapEvictEx
+                      C02.BindModel C02.BindLemmas.
 Open Scope Z_scope.
 
 (* A.1  NodeInfo.AddTask under the guard of its caller keeps the node within capacity *)
@@ -143,6 +144,90 @@ Theorem C02_job_roundtrip_same : forall h j t,
 Proof. exact job_roundtrip_same. Qed.
 Print Assumptions C02_job_roundtrip_same.
 
+(* C  evictions (preempt / reclaim) *)
+
+(* Statement.Evict on the node: Idle and Pipelined keep their amounts, Releasing (hence FutureIdle)
+   grows by exactly the victim's request *)
+Theorem C02_node_update_evict : forall eps n p c n' p',
+  sc (n_idle n) <> None ->
+  n_tasks n !! t_id p = Some c -> t_req c = t_req p -> plain (t_status c) ->
+  t_status p = Releasing \/ plain (t_status p) ->
+  node_update eps n p = inl (n', p') ->
+  sc (n_idle n') <> None /\ same_amounts (n_idle n') (n_idle n) /\ same_amounts (n_pipelined n') (n_pipelined n) /\
+  (forall d, amt (n_releasing n') d = amt (n_releasing n) d + (if n_has_node n && bool_decide (t_status p = Releasing) then amt (t_req p) d else 0)) /\
+  n_tasks n' = <[t_id p := set_node p (Some (n_id n))]> (n_tasks n) /\
+  (sc (n_pipelined n) <> None -> sc (n_pipelined n') <> None).
+Proof. exact node_update_evict. Qed.
+Print Assumptions C02_node_update_evict.
+
+(* any history of tentative evictions (of whatever copies) and FutureIdle-guarded pipelines (of
+   whatever tasks) on a node keeps it within capacity, and so does undoing any number of the
+   recorded operations newest first (Statement.Discard) *)
+Theorem C02_evict_history_safe : forall eps, 0 < eps -> forall n ops k,
+  nbase eps n -> Forall fop_ok ops ->
+  let x := fold_left (fstep eps) ops (n, []) in
+  node_safe eps (fst x) /\ node_safe eps (fold_left (nundo eps) (take k (snd x)) (fst x)).
+Proof. exact evict_history_safe. Qed.
+Print Assumptions C02_evict_history_safe.
+
+Theorem C02_stack_pipeline : forall eps, 0 < eps -> forall n st t,
+  stackP eps n st -> nonneg (t_req t) -> (forall d, amt (t_req t) d <= amt (t_init t) d) ->
+  stackP eps (fst (npipeline eps n t)) (if snd (npipeline eps n t) then NP (t_id t) :: st else st).
+Proof. exact stack_pipeline. Qed.
+Print Assumptions C02_stack_pipeline.
+
+Theorem C02_discard_stack_safe : forall eps st n k,
+  stackP eps n st -> node_safe eps (fold_left (nundo eps) (take k st) n).
+Proof. exact discard_stack_safe. Qed.
+Print Assumptions C02_discard_stack_safe.
+
+(* reclaim's running sum is the node's FutureIdle after the evictions *)
+Theorem C02_reclaim_running_sum : forall eps n st tid c d,
+  stackP eps n st -> n_tasks n !! tid = Some c -> plain (t_status c) ->
+  amt (future_idle (nevict eps n tid)) d = amt (add (future_idle n) (t_req c)) d.
+Proof. exact reclaim_running_sum. Qed.
+Print Assumptions C02_reclaim_running_sum.
+
+(* the statement operations are these ledger operations *)
+Theorem C02_stmt_evict_with_safe : forall eps s sid c nid n j st,
+  jobs s !! t_job c = Some j -> nodes s !! nid = Some n -> node_keyed nid n ->
+  n_tasks n !! t_id c = Some c -> plain (t_status c) -> stackP eps n st ->
+  exists n', nodes (fst (stmt_evict_with eps s sid c None)) = <[nid := n']> (nodes s) /\
+             stackP eps n' (NE (t_id c) (t_status c) :: st) /\
+             forall d, fut_amt n' d = fut_amt n d + amt (t_req c) d.
+Proof. exact stmt_evict_with_safe. Qed.
+Print Assumptions C02_stmt_evict_with_safe.
+
+Theorem C02_unevict_with_safe : forall eps s c prev nid n j st,
+  jobs s !! t_job c = Some j -> nodes s !! nid = Some n -> node_keyed nid n ->
+  n_tasks n !! t_id c = Some c -> stackP eps n (NE (t_id c) prev :: st) ->
+  exists n', nodes (fst (unevict_with eps s c prev)) = <[nid := n']> (nodes s) /\ stackP eps n' st.
+Proof. exact unevict_with_safe. Qed.
+Print Assumptions C02_unevict_with_safe.
+
+Theorem C02_unpipeline_with_safe : forall eps s c nid n j st,
+  jobs s !! t_job c = Some j -> nodes s !! nid = Some n -> t_node c = Some nid ->
+  stackP eps n (NP (t_id c) :: st) ->
+  exists n', nodes (unpipeline_with s c) = <[nid := n']> (nodes s) /\ stackP eps n' st.
+Proof. exact unpipeline_with_safe. Qed.
+Print Assumptions C02_unpipeline_with_safe.
+
+(* Commit when the evictor refuses nothing touches no node ... *)
+Theorem C02_stmt_commit_without_refusal : forall eps s sid,
+  refuse_evict s = ∅ -> Forall (fun o => op_kind o <> KAllocate) (default [] (stmts s !! sid)) ->
+  nodes (stmt_commit eps s sid) = nodes s.
+Proof. exact stmt_commit_without_refusal. Qed.
+Print Assumptions C02_stmt_commit_without_refusal.
+
+(* ... and with a refusal it un-evicts the victim under the pipelined preemptor (documented limit) *)
+Theorem C02_commit_refused_eviction_refuted :
+  nwc_b 2 (node1 ev_sess) = true /\ nwc_b 2 (node1 ev_before_commit) = true /\
+  map (fun o => (op_kind o, op_task o)) (default [] (stmts ev_before_commit !! 1%positive)) = [(KEvict, 1%positive); (KPipeline, 3%positive)] /\
+  elements (refuse_evict ev_before_commit) = [1%positive] /\
+  ~ node_within_capacity 2 (node1 (stmt_commit 2 ev_before_commit 1)).
+Proof. exact commit_refused_eviction_refuted. Qed.
+Print Assumptions C02_commit_refused_eviction_refuted.
+
 (* non-vacuity *)
 Example C02_hypotheses_satisfiable : world_ok 2 ex_world.
 Proof. exact ex_world_ok. Qed.
@@ -161,3 +246,15 @@ Example C02_drift_without_granularity :
   exists n, nodes (w_sess (run 2 drift_world drift_ops)) !! 1%positive = Some n /\
             amt (n_idle n) DCpu = -3 /\ ~ node_within_capacity 2 n.
 Proof. exact drift_without_granularity. Qed.
+
+(* evictions: the node of the witnesses satisfies the hypotheses; what the seeded mutant C02-2 does *)
+Example C02_evict_hypotheses_satisfiable : nbase 2 ev_n1.
+Proof. exact ev_n1_base. Qed.
+
+Example C02_idle_plus_releasing_overcounts :
+  less_equal 2 (t_init ev_t4) (add (n_idle ev_n1') (n_releasing ev_n1')) DZero = true /\
+  match node_add 2 ev_n1' (set_status ev_t4 Pipelined) with
+  | inl (n', _) => nwc_b 2 n'
+  | inr _ => true
+  end = false.
+Proof. exact idle_plus_releasing_overcounts. Qed.
